@@ -1209,8 +1209,26 @@ _QS = [None, None, None, '1', '1.0', '0.9', '0.8', '0.5', '0.5', '0.1', '0.001',
 _WS = ['', '', ' ', '\t']
 
 
+def _r(t, s, q):
+    return {'t': t, 's': s, 'q': q, 'case': None, 'ws': ['', '', ' ']}
+
+
+# a refusal (q=0) of a specific type next to a wildcard that would accept it, in both orders, and ties
+_FIXED_ACCEPTS = [
+    [_r('application', 'json', '0'), _r('*', '*', '0.5')],
+    [_r('*', '*', '0.5'), _r('application', 'json', '0')],
+    [_r('application', 'json', '0.0'), _r('application', '*', None)],
+    [_r('application', 'xml', '0'), _r('text', 'xml', '0'), _r('*', '*', None)],
+    [_r('application', 'json', '0'), _r('application', 'xml', '0'), _r('text', 'xml', '0'), _r('*', '*', '0.1')],
+    [_r('application', 'json', '0.000'), _r('text', '*', '0.3'), _r('*', '*', '0.2')],
+    [_r('application', 'json', '0.5'), _r('application', 'xml', '0.5')],
+]
+
+
 @st.composite
 def _accept(draw):
+    if draw(st.integers(0, 9)) == 0:
+        return [dict(r) for r in draw(st.sampled_from(_FIXED_ACCEPTS))]
     if draw(st.sampled_from([True, False, False, False, False, False])):
         return None
     n = draw(st.sampled_from([1, 1, 2, 2, 3, 4, 1, 2, 0]))
